@@ -421,7 +421,7 @@ pub fn make_inputs(cfg: &Cfg, rng: &mut Rng, tier: Tier, budget: usize, sentence
     out
 }
 
-const FLAVOURS: [&str; 3] = ["lazy counting struct", "Vec", "iter::from_fn"];
+const FLAVOURS: [&str; 4] = ["lazy counting struct", "Vec", "iter::from_fn", "lazy counting struct that is not fused (40 further tokens behind the None)"];
 
 #[derive(Debug, Clone, PartialEq, Eq)]
 enum Expect {
@@ -558,7 +558,7 @@ impl EmitRun {
             let ks = word.iter().map(|k| k.to_string()).collect::<Vec<_>>().join(" ");
             lines.push(format!("0 0 {ks}"));
             meta.push((i, 0, 0));
-            let fl = 1 + (i % 2);
+            let fl = 1 + (i % 3);
             lines.push(format!("{fl} 1 {ks}"));
             meta.push((i, fl, 1));
         }
@@ -694,7 +694,11 @@ impl EmitRun {
                         w.violation("tree-differs-from-derivation", "the returned tree is not the derivation tree with the original payloads", input_desc());
                     }
                     if let Some(p) = pulls {
-                        if p != word.len() {
+                        if *flavour == 3 && p > word.len() {
+                            // tokens behind the end of the input were pulled although the result is right:
+                            // not covered by the statement, recorded only
+                            w.count("observed:pulled-behind-end-of-input");
+                        } else if p != word.len() {
                             w.violation("accepted-without-consuming-input", &format!("accepted after pulling {p} of {} tokens", word.len()), input_desc());
                         }
                     }
@@ -713,7 +717,7 @@ impl EmitRun {
                     }
                     w.eval();
                     w.count(&format!("workload:{wtag}"));
-                    w.count(&format!("iterator:{}", ["lazy-struct", "vec", "from_fn"][*flavour]));
+                    w.count(&format!("iterator:{}", ["lazy-struct", "vec", "from_fn", "not-fused"][*flavour]));
                     match &expect {
                         Expect::ErrSome(i) => {
                             w.count("rejections:offending-token");
@@ -737,7 +741,9 @@ impl EmitRun {
                             if kind != "EN" {
                                 w.violation("token-instead-of-err-none", &format!("the input is a proper prefix of a sentence; expected Err(None), parse returned Err(Some({payload}))"), input_desc());
                             } else if let Some(p) = pulls {
-                                if p != word.len() {
+                                if *flavour == 3 && p > word.len() {
+                                    w.count("observed:pulled-behind-end-of-input");
+                                } else if p != word.len() {
                                     w.violation("wrong-pull-count-at-end", &format!("{p} tokens pulled, input has {}", word.len()), input_desc());
                                 }
                             }
@@ -802,7 +808,7 @@ impl Engine for EmitRun {
         json!({"class": "generated-grammar", "grammar_src": c.src})
     }
     fn rule(&self, prop: &str) -> String {
-        let common = "grammars: the repository examples (structure only), the textbook corpus, combinator-built and random grammars, rendered with random fieldset styles / used-skipped masks and payload types from a pool of 9 (usize, String, user struct, Vec, Option, nested BTreeMap, unit, Option<Box<Vec>>, Vec<Option<Box<Rc>>>); names: default, shuffled, confusable, emitter vocabulary, concatenation twins, the hostile pools of C05; each accepted grammar is compiled with rustc and run on: all strings up to a length bound (W1), random sentences (W2), a prefix-extension sweep p·t for every prefix p of short sentences and every terminal t (W3), 1-2 token edits (W4), long sentences up to 5000 tokens (W5, thorough); every input twice (lazy counting iterator + position payloads; Vec or iter::from_fn + pseudo-random payloads). One evaluation = one execution of the compiled parse()";
+        let common = "grammars: the repository examples (structure only), the textbook corpus, combinator-built and random grammars, rendered with random fieldset styles / used-skipped masks and payload types from a pool of 9 (usize, String, user struct, Vec, Option, nested BTreeMap, unit, Option<Box<Vec>>, Vec<Option<Box<Rc>>>); names: default, shuffled, confusable, emitter vocabulary, concatenation twins, the hostile pools of C05; each accepted grammar is compiled with rustc and run on: all strings up to a length bound (W1), random sentences (W2), a prefix-extension sweep p·t for every prefix p of short sentences and every terminal t (W3), 1-2 token edits (W4), long sentences up to 5000 tokens (W5, thorough); every input twice (lazy counting iterator + position payloads; Vec, iter::from_fn or a lazy iterator that is NOT fused - 40 tokens that are not part of the input follow the None - + pseudo-random payloads). One evaluation = one execution of the compiled parse()";
         match prop {
             "C01" => format!("{common}; compared with membership decided by the canonical LR(1) reference parser, cross-checked by a definitional chart recogniser (<=40 tokens) and an Earley recogniser (<=120 tokens). Distinct non-trivial = distinct (grammar, token sequence) with >=2 productions and >=1 token."),
             "C02" => format!("{common}; for accepted inputs the {{:?}} rendering of the returned tree is compared with the rendering of the reference derivation (validated by a definitional derivation checker). Distinct non-trivial = distinct (grammar, sentence) whose tree has >=2 used leaves."),
